@@ -29,7 +29,7 @@ func init() {
 	reg.Register(runner.Check{
 		ID:    "C11",
 		Level: "exploration",
-		Rule: "exhaustive enumeration of negotiations against the real socks5 server code: method lists = all lists of length 0..4 over {0x00,0x01,0x02,0x80,0xff} plus 255-entry lists; credential configurations {none, one pair, two pairs}; supplied sub-negotiation {first pair, second pair, user of one pair with password of the other, wrong user, wrong password, unknown user with empty password, empty/empty, 255-byte fields, version 0, version 5, truncated after every byte}; " +
+		Rule: "exhaustive enumeration of negotiations against the real socks5 server code: method lists = all lists of length 0..4 over {0x00,0x01,0x02,0x80,0xff} plus 255-entry lists; credential configurations {none, one pair, two pairs}; supplied sub-negotiation {first pair, second pair, user of one pair with password of the other, wrong user, wrong password, every other cut of a configured pair's user+password concatenation, 15 near misses (case, trailing NUL/space, separator inside a field, fields exchanged), unknown user with empty password, empty/empty, 255-byte fields, version 0, version 5, truncated after every byte}; " +
 			"placement {client-side authentication in front of a proxy dialer, server-side authentication in front of the egress}; an adaptive client follows whatever method the server selects and then sends a CONNECT; oracle = reference decision from RFC 1928/1929 and the statement, observed as 'proxy dialled / destination dialled'. distinct = distinct (configuration, method list, supplied credentials, placement)",
 		Assumptions: []string{
 			"'served' is observed as the proxy dialer being invoked (client placement) or the destination being dialled (server placement)",
@@ -261,6 +261,19 @@ func subs() []sub {
 		{"255", 1, long, long, -1},
 		{"ver0", 0, "u1", "p1", -1},
 		{"ver5", 5, "u1", "p1", -1},
+	}
+	// the same bytes as a configured pair, cut elsewhere (user+password concatenations coincide)
+	for _, p := range pairs {
+		cat := p.User + p.Password
+		for k := 0; k <= len(cat); k++ {
+			if k != len(p.User) {
+				ss = append(ss, sub{fmt.Sprintf("resplit-%s-at-%d", p.User, k), 1, cat[:k], cat[k:], -1})
+			}
+		}
+	}
+	// near misses of pair1: case, trailing NUL / space, separators moved into a field
+	for i, nm := range [][2]string{{"U1", "p1"}, {"u1", "P1"}, {"u1\x00", "p1"}, {"u1", "p1\x00"}, {"u1 ", "p1"}, {"u1", "p1 "}, {" u1", "p1"}, {"u1:", "p1"}, {"u1", ":p1"}, {"u1:p1", ""}, {"", "u1:p1"}, {"u1\x00p1", ""}, {"p1", "u1"}, {"u1", "u1"}, {"p1", "p1"}} {
+		ss = append(ss, sub{fmt.Sprintf("near-miss-%d", i), 1, nm[0], nm[1], -1})
 	}
 	for k := 0; k < 7; k++ { // 1 + 1 + 2 + 1 + 2 bytes of pair1
 		ss = append(ss, sub{fmt.Sprintf("trunc%d", k), 1, "u1", "p1", k})
